@@ -1,14 +1,17 @@
 #!/bin/sh
-# usage: tools/try_seeded.sh <seeded dir name e.g. C04_a> [tier]  — applies the patch to /repo, runs the property's check, undoes it
+# usage: tools/try_seeded.sh <seeded dir name e.g. C04_a> [tier]
+# applies the patch to a scratch worktree of /repo's HEAD, runs the property's check against it (VERIF_REPO), removes the worktree;
+# evidence of the trial goes to a scratch directory, never to /verif/evidence
 d=/verif/seeded/$1; prop=$(echo $1 | cut -d_ -f1); tier=${2:-quick}
-cd /repo || exit 2
-if ! git diff --quiet; then echo "REPO DIRTY"; exit 2; fi
-if ! git apply --3way $d/patch.diff 2>/tmp/apply_err_$$; then
-  if ! patch -p1 --dry-run < $d/patch.diff >/dev/null 2>&1; then echo "PATCH DOES NOT APPLY to current /repo: $(head -3 /tmp/apply_err_$$)"; git checkout -- . ; git reset -q; exit 3; fi
+wt=/tmp/try_wt_$1
+git -C /repo worktree remove --force $wt >/dev/null 2>&1
+git -C /repo worktree add --detach $wt HEAD -q || exit 2
+cd $wt || exit 2
+if ! git apply --3way $d/patch.diff 2>/tmp/apply_err_$1; then
+  if ! patch -p1 --dry-run < $d/patch.diff >/dev/null 2>&1; then echo "PATCH DOES NOT APPLY to current /repo: $(head -3 /tmp/apply_err_$1)"; cd /; git -C /repo worktree remove --force $wt; echo "RESULT $1 exit=3"; exit 3; fi
   patch -p1 -s < $d/patch.diff
 fi
-git reset -q
-cd /verif && ./check $prop --tier $tier > /tmp/try_$1.out 2>&1; rc=$?
+cd /verif && VERIF_REPO=$wt VERIF_EVIDENCE_DIR=/tmp/try_ev_$1 ./check $prop --tier $tier > /tmp/try_$1.out 2>&1; rc=$?
 tail -3 /tmp/try_$1.out
-cd /repo && git checkout -- . && git clean -fdq epydemic
+git -C /repo worktree remove --force $wt; rm -rf /tmp/try_ev_$1
 echo "RESULT $1 exit=$rc"
